@@ -55,6 +55,20 @@ CORPUS = ["testdata/condition.emb", "testdata/enum.emb", "testdata/bits.emb", "t
           "testdata/nested_structure.emb", "testdata/imported_genfiles.emb", "testdata/complex_structure.emb"]
 
 
+class _FileReader:
+    """file_reader for glue.parse_emboss_file: names relative to the repository root."""
+
+    def __init__(self, root):
+        self.root = root
+
+    def __call__(self, name):
+        try:
+            with open(os.path.join(self.root, name)) as f:
+                return f.read(), None
+        except OSError as e:
+            return None, [str(e)]
+
+
 def compile_under_seed(path, seed, extra_args=()):
     out = tempfile.mkdtemp(prefix="c17_", dir=core.BUILD)
     env = dict(os.environ, PYTHONHASHSEED=str(seed), PYTHONPATH=core.REPO)
@@ -166,6 +180,59 @@ def main(args):
                                 replay=None if ok else {"reproduced": True, "inputs": nm, "outputs_by_seed": [r[2] for r in res][:3]}))
     run.bounded.append({"what": "embossc on %d inputs under PYTHONHASHSEED in %s, fresh processes" % (len(jobs), list(seeds)),
                         "evaluations": len(jobs) * len(seeds), "distinct_nontrivial": len(jobs), "seconds": round(time.time() - t0, 1)})
+    # purity: the compile path uses no ambient source of nondeterminism (syntactic, on the real AST of every scanned file)
+    import ast
+    DENY_MODULES = {"random", "time", "datetime", "uuid", "secrets", "threading", "multiprocessing", "tempfile", "socket", "getpass", "locale", "platform"}
+    DENY_CALLS = {"id", "hash", "listdir", "walk", "scandir", "glob", "iglob", "getpid", "getcwd", "urandom", "getenv", "environ"}
+    for f in files:
+        rel = os.path.relpath(f, core.REPO)
+        try:
+            tree = ast.parse(open(f).read(), f)
+        except SyntaxError:
+            continue
+        bad = []
+        for n in ast.walk(tree):
+            if isinstance(n, ast.Import):
+                bad += ["line %d: import %s" % (n.lineno, a.name) for a in n.names if a.name.split(".")[0] in DENY_MODULES]
+            elif isinstance(n, ast.ImportFrom) and (n.module or "").split(".")[0] in DENY_MODULES:
+                bad.append("line %d: from %s import ..." % (n.lineno, n.module))
+            elif isinstance(n, ast.Call):
+                nm = n.func.id if isinstance(n.func, ast.Name) else (n.func.attr if isinstance(n.func, ast.Attribute) else None)
+                if nm in DENY_CALLS:
+                    bad.append("line %d: call of %s()" % (n.lineno, nm))
+            elif isinstance(n, ast.Attribute) and n.attr == "environ":
+                bad.append("line %d: os.environ" % n.lineno)
+        run.add(core.Obligation("purity.no-ambient-nondeterminism[%s]" % rel, core.PROVED if not bad else core.REFUTED, "syntactic-rule", 0.0,
+                                model={"uses": bad} if bad else None, detail="; ".join(bad)[:300] or "no clock, randomness, object identity/hash, directory listing or environment read"))
+    # repetition within one process (bounded): the same module compiled twice, with another module in between, gives the same header
+    t0 = time.time()
+    glue = importlib.import_module("compiler.front_end.glue")
+    hg = importlib.import_module("compiler.back_end.cpp.header_generator")
+    from contracts.bounds import _Reader
+    reps_bad = []
+    n_rep = 0
+    for cfile in corpus[:6]:
+        path = os.path.join(core.REPO, cfile) if not os.path.isabs(cfile) else cfile
+
+        def compile_once(pth):
+            ir, debug, errors = glue.parse_emboss_file(os.path.relpath(pth, core.REPO), _FileReader(core.REPO))
+            if errors:
+                return "ERRORS:" + repr(errors)[:200]
+            header, errs = hg.generate_header(ir)
+            return header
+        try:
+            first = compile_once(path)
+            other = compile_once(os.path.join(core.REPO, CORPUS[0]))
+            second = compile_once(path)
+            n_rep += 1
+            if first != second:
+                reps_bad.append(cfile)
+        except Exception as ex:     # a crash here is a checker problem (the reader), not a verdict
+            run.error("in-process repetition harness failed on %s: %s" % (cfile, ex))
+            break
+    run.add(core.Obligation("repeat.identical-header-within-one-process", core.BPASS if not reps_bad else core.BFAIL, "cpython", time.time() - t0, kind="bounded",
+                            model={"modules": reps_bad} if reps_bad else None, detail="%d modules compiled twice in this process with another module in between" % n_rep,
+                            replay=None if not reps_bad else {"reproduced": True, "inputs": reps_bad}))
     run.extra["set_iteration_sites"] = n_sites
     run.extra["files_scanned"] = [os.path.relpath(f, core.REPO) for f in files]
     run.assume("set-typedness: local inference plus the sidecar hints in props/C17.py (attributes/functions known to hold sets); an unhinted set is not seen",
